@@ -30,6 +30,19 @@ META["C11"] = {
     "level_note": "trusts Go's per-iteration map randomisation as the source of order perturbation; compares observable API results, times, handler sequences",
 }
 
+META["C01"] = {
+    "budget": {"quick": 25, "thorough": 600},
+    "rule": "one run = generated schema (Require/Add/Remove/After, Auto, Multi) + handler plan (vetoes, handler-issued mutations, handlers that park) + 1..3 mutator tasks + 1..2 reader tasks under the seeded scheduler; a reader step reads Is/Not/Any, ActiveStates, Tick, Time, Clock, String, StringAll and Export atomically; non-trivial = at least one context switch; distinct = distinct event-log hashes",
+    "components": {"real": MACHINE_REAL, "stub": []},
+    "assumptions": [
+        "readers are scheduled only at scheduling points: torn reads inside critical sections are C12's (race detector) business",
+        "no handler faults in this family (they belong to C08)",
+    ],
+    "probes": ["multi+2", "partial-auto", "reader-inside-final-handler", "reader-inside-transition"],
+    "level_text": "seeded search over schemas, histories and reader/mutator interleavings; every reader step cross-checks all views, a per-state ledger checks monotonicity over everything observed, every transition is checked against the documented tick step",
+    "level_note": "trusts testing/synctest and the recording tracer; preemption only at scheduling points",
+}
+
 NOT_YET = "check not built yet in this session (planned, see DESIGN.md section 5)"
 NOT_APPLICABLE = {
     "C19": "no schedule, clock, fault or multi-party behaviour: a static well-formedness scan of schema literals plus an exhaustive breadth-first enumeration of reachable active sets, i.e. bounded model checking, not deterministic simulation (DESIGN.md section 6)",
